@@ -616,7 +616,10 @@ fn known_witness(root: &Path) -> KnownReplay {
 
 fn main() {
     let args = parse_args();
-    let root = args.out.join(format!("fs-{}", std::process::id()));
+    // scratch WAL directories: memory-backed when available (tens of thousands of small
+    // file rewrites per run), else the system temp dir; removed at the end
+    let base = if Path::new("/dev/shm").is_dir() { PathBuf::from("/dev/shm") } else { std::env::temp_dir() };
+    let root = base.join(format!("verif-c15-{}", std::process::id()));
     std::fs::create_dir_all(&root).unwrap();
     let shard = if args.thorough { 12 } else { 3 };
     let mut out = Out::new(&args, "From Verif Require Import Bincode Wal.", "Wal.case", "Wal.check_case", shard);
